@@ -10,7 +10,10 @@
 //!   case <n> conn max=<m> http=<0|1> ws=<0|1> obs=<0|1> path=<server|tower|towerset>
 //!   cg harrive <c> <new|reuse> | cg hdone <c> | cg habort <c> <fin|rst>
 //!   cg wstart <c> <0|1> | cg wdone <c> | cg wfail <c> <drop|reset>
-//!   cg wclose <c> <close|closecall|reset|resetcall|proto|ping|stop> | cg end
+//!   cg wclose <c> <close|closecall|halfcall|reset|resetcall|proto|ping|pingcall|stop> | cg end
+//!     (…call = one gated call is executing on the session while it ends: the slot must be freed
+//!      although the handler still runs; ping/pingcall = the peer goes silent and the server closes
+//!      the session for inactivity; halfcall = the peer shuts down its sending side)
 //!
 //! Oracle (independent of the Lean model; `live` = the sessions the harness itself has open):
 //!   * an attempt is answered 429  <=>  `live == max` at arrival; no handler/upgrade ran for it
@@ -304,7 +307,8 @@ impl Run {
 				let how = w[3];
 				let call_tag = 1000 + tag;
 				let mut pre = Ok(());
-				if how == "resetcall" || how == "closecall" {
+				let with_call = matches!(how, "resetcall" | "closecall" | "pingcall" | "halfcall");
+				if with_call {
 					// a call is executing on the session while it ends; the session is still counted
 					let (_, conn) = self.live.get_mut(&tag).unwrap();
 					let _ = conn.ws_text(&call_json(call_tag, "hold", call_tag)).await;
@@ -330,7 +334,14 @@ impl Run {
 						let _ = conn.send(&[0xff, 0xff, 0xff, 0xff, 0xff, 0xff, 0xff, 0xff, 0xff, 0xff]).await;
 						ended = conn.ws_wait_end().await;
 					}
-					"ping" => ended = conn.ws_wait_end().await,
+					// silent peer: pings are never answered (nothing reads this socket until the wait below,
+					// which only consumes); the server ends the session for inactivity
+					"ping" | "pingcall" => ended = conn.ws_wait_end().await,
+					"halfcall" => {
+						use tokio::io::AsyncWriteExt;
+						let _ = conn.sock.shutdown().await;
+						ended = conn.ws_wait_end().await;
+					}
 					"stop" => {
 						if !self.stop_issued {
 							self.stop_issued = true;
@@ -344,7 +355,7 @@ impl Run {
 				}
 				let ok = pre.and(check(ended, || format!("session {tag}: the server side did not end the connection ({how})")));
 				let r = self.released("after the WebSocket session ended", ok).await;
-				if how == "resetcall" || how == "closecall" {
+				if with_call {
 					self.env.shared.release(call_tag);
 					self.env.wait_ev(|e| matches!(e, Ev::Finished { tag: t } if *t == call_tag).then_some(()), WAIT).await;
 				}
@@ -394,7 +405,7 @@ async fn run_case(lines: &[String], out: &mut Out) -> bool {
 		}
 		return true;
 	};
-	let ping = lines.iter().any(|l| l.starts_with("cg wclose") && l.ends_with(" ping")).then_some((25u64, 50u64));
+	let ping = lines.iter().any(|l| l.starts_with("cg wclose") && (l.ends_with(" ping") || l.ends_with(" pingcall"))).then_some((25u64, 50u64));
 	let env = start_env(&EnvCfg { assembly: h.assembly, max: h.max, http: h.http, ws: h.ws, ping, buffer: 16 }).await;
 	let mut run = Run { env, max: h.max as usize, live: BTreeMap::new(), idle: vec![], stop_issued: false };
 	run.bootstrap(h.http).await;
@@ -492,7 +503,7 @@ impl GenCase {
 				_ => format!("cg hdone {c}"),
 			},
 			G::Upg => format!("cg wfail {c} {}", if rng.chance(1, 2) { "drop" } else { "reset" }),
-			G::Ws => format!("cg wclose {c} {}", rng.pick(&["close", "closecall", "reset", "resetcall", "proto"])),
+			G::Ws => format!("cg wclose {c} {}", rng.pick(&["close", "closecall", "halfcall", "reset", "resetcall", "proto"])),
 		}
 	}
 
@@ -593,9 +604,9 @@ fn gen_fill_case(rng: &mut Rng, n: u64) -> Vec<String> {
 	g.lines
 }
 
-const EXIT_PATHS: [&str; 13] = [
-	"hdone", "habort.fin", "habort.rst", "rejected", "denied", "wfail.drop", "wfail.reset", "wclose.close", "wclose.closecall", "wclose.reset",
-	"wclose.resetcall", "wclose.proto", "wclose.ping",
+const EXIT_PATHS: [&str; 15] = [
+	"hdone", "habort.fin", "habort.rst", "rejected", "denied", "wfail.drop", "wfail.reset", "wclose.close", "wclose.closecall", "wclose.halfcall",
+	"wclose.reset", "wclose.resetcall", "wclose.proto", "wclose.ping", "wclose.pingcall",
 ];
 
 /// `cycles` open/finish cycles through one exit path on a small limit, with `max - 1` other
@@ -647,6 +658,49 @@ fn gen_cycle_case(rng: &mut Rng, n: u64, path: &str, cycles: u64) -> Vec<String>
 	lines
 }
 
+/// ping enabled, the peer goes silent (with or without a gated call still executing on the session):
+/// the server closes the session for inactivity; the slot must be free again, which is shown both by
+/// `available_connections()` and by a new attempt being admitted (and the one after it refused).
+/// WebSocket sessions of such a case are closed right after they were opened (they would otherwise
+/// time out on their own), HTTP requests may be in flight throughout.
+fn gen_ping_case(rng: &mut Rng, n: u64) -> Vec<String> {
+	let max = rng.range(1, 3) as u32;
+	let asm = *rng.pick(&[Assembly::Server, Assembly::Tower, Assembly::TowerSet]);
+	let mut lines = vec![header(n, max, true, true, asm)];
+	let mut c = 1u64;
+	let mut held = vec![];
+	let nheld = rng.below(max as u64);
+	for _ in 0..nheld {
+		lines.push(format!("cg harrive {c} new"));
+		held.push(c);
+		c += 1;
+	}
+	let rounds = rng.range(1, 3);
+	for _ in 0..rounds {
+		lines.push(format!("cg wstart {c} 1"));
+		lines.push(format!("cg wdone {c}"));
+		lines.push(format!("cg wclose {c} {}", rng.pick(&["ping", "pingcall", "pingcall"])));
+		c += 1;
+		// the freed slot is usable: fill the server completely, one more is refused
+		let mut extra = vec![];
+		for _ in held.len() as u32..max {
+			lines.push(format!("cg harrive {c} new"));
+			extra.push(c);
+			c += 1;
+		}
+		lines.push(format!("cg harrive {c} new"));
+		c += 1;
+		for e in extra {
+			lines.push(if rng.chance(1, 3) { format!("cg habort {e} rst") } else { format!("cg hdone {e}") });
+		}
+	}
+	for h in held {
+		lines.push(format!("cg hdone {h}"));
+	}
+	lines.push("cg end".into());
+	lines
+}
+
 fn split_cases(lines: Vec<String>) -> Vec<Vec<String>> {
 	let mut cases: Vec<Vec<String>> = vec![];
 	for l in lines {
@@ -673,8 +727,12 @@ fn main() {
 		let cycles = if thorough { 200 } else { 4 };
 		for p in EXIT_PATHS {
 			// ping inactivity needs real time (~75 ms per cycle)
-			let cy = if p == "wclose.ping" { if thorough { 200 } else { 2 } } else { cycles };
+			let cy = if p.starts_with("wclose.ping") { if thorough { 200 } else { 2 } } else { cycles };
 			cases.push(gen_cycle_case(&mut rng, n, p, cy));
+			n += 1;
+		}
+		for _ in 0..(if thorough { 100 } else { 6 }) {
+			cases.push(gen_ping_case(&mut rng, n));
 			n += 1;
 		}
 		let total = a.cases.unwrap_or(if thorough { 5000 } else { 1000 });
